@@ -197,6 +197,10 @@ class Verdict:
         for kh in knownhits.values():
             print('KNOWN-FINDING: property=%s %s [key %s, %d observations]' % (self.prop, kh['finding']['description'], kh['finding']['key'], kh['count']))
         replay_paths = []
+        import glob
+        for old in glob.glob(os.path.join(VERIF, 'evidence', 'replays', self.prop + '-*.json')):
+            try: os.unlink(old)
+            except OSError: pass
         for key, e in new:
             rp = os.path.join(VERIF, 'evidence', 'replays', '%s-%s.json' % (self.prop, sha(key)[:10]))
             with open(rp, 'w') as f: json.dump({'property': self.prop, 'key': key, 'count': e['count'], 'first': e['first'], 'run': e['run'], 'seed': self.seed, 'tier': self.tier}, f, indent=1, default=str)
